@@ -119,6 +119,9 @@ func replay(c json.RawMessage) (bool, string, error) {
 		case <-time.After(20 * time.Second):
 			return false, "the recorded schedule does not fit the synchronisation structure of this tree (replay diverged): nothing reproduced", nil
 		}
+		if o.Diverged != "" {
+			return false, "the recorded schedule does not fit the synchronisation structure of this tree (" + o.Diverged + "): nothing reproduced", nil
+		}
 		if v := in.Check(o); len(v) > 0 {
 			return true, fmt.Sprintf("%v\ntrace: %v", v, o.Trace), nil
 		}
